@@ -222,3 +222,20 @@ func derefNamed(t types.Type) string {
 	}
 	return ""
 }
+
+// mainDelegates: main itself no longer runs the procedures (no ConnectToAmf call in its body) but
+// functions of package main that it reaches do; returns their names ("" otherwise).
+func mainDelegates(c *core.Ctx) string {
+	mainFn := c.P.Func(pMain, "main")
+	if mainFn == nil || len(core.CallsTo(mainFn, pTglib+".ConnectToAmf")) > 0 {
+		return ""
+	}
+	var who []string
+	for f := range staticReach(mainFn) {
+		if f != mainFn && fnPkgPath(f) == pMain && len(core.CallsTo(f, pTglib+".ConnectToAmf")) > 0 {
+			who = append(who, f.Name())
+		}
+	}
+	sort.Strings(who)
+	return strings.Join(who, ", ")
+}
